@@ -471,7 +471,10 @@ func (g *FuncGen) queryPart(o *Obligation, part int, models bool, abstracted boo
 		body.WriteString("\n")
 	}
 	guard, goal = sub(guard), sub(goal)
-	for _, a := range g.asserts {
+	for i, a := range g.asserts {
+		if g.disabled[i+1] {
+			continue
+		}
 		body.WriteString("(assert ")
 		body.WriteString(sub(a))
 		body.WriteString(")\n")
